@@ -246,6 +246,13 @@ func C08Scenarios(c *core.Ctx, rows []WireRow, pool []string) []*AdScenario {
 					MyType: "Machine", TargetType: "Job", Cut: row.Cut, RecvOK: row.RecvOK, Sender: s,
 					Trailer: row.Cfg.Opts&BitNoTypes == 0 || strings.HasPrefix(s, "PutClassAdRaw"), Salt: salt,
 					AllCuts: c.Thorough() && round == 0}
+				// the size-limited receiver: every byte budget once per shape and sender API,
+				// the field boundaries +-1 on every fourth of the value-carrying repetitions
+				if round == 0 {
+					sc.Budgets = "all"
+				} else if len(out)%4 == 0 || c.Thorough() {
+					sc.Budgets = "bounds"
+				}
 				out = append(out, sc)
 			}
 		}
@@ -295,7 +302,7 @@ func C08StimeScenarios(c *core.Ctx, rows []WireRow) []*AdScenario {
 			out = append(out, &AdScenario{Kind: "ClassAdWire", Prop: "C08", Cfg: row.Cfg, Attrs: attrs, Types: row.Types,
 				MyType: "Machine", TargetType: "Job", Cut: row.Cut, RecvOK: row.RecvOK, Sender: s,
 				Trailer: row.Cfg.Opts&BitNoTypes == 0 || strings.HasPrefix(s, "PutClassAdRaw"), Salt: salt,
-				AllCuts: c.Thorough()})
+				AllCuts: c.Thorough(), Budgets: "all"})
 		}
 	}
 	return out
@@ -325,7 +332,7 @@ func LargeAdScenarios(c *core.Ctx) []*AdScenario {
 					attrs = append(attrs, ConcAttr{Name: "Small", Cls: "pubA", Sp: "mixed", Value: "1 + 2", Allowed: []string{"plain", "secret"}})
 					out = append(out, &AdScenario{Kind: "ClassAdWire", Prop: "C08", Cfg: WireCfg{Opts: 0, St: st, Ver: "unset", Wl: "none"},
 						Attrs: attrs, Types: "both", MyType: "Machine", TargetType: "Job", Cut: "one", RecvOK: true,
-						Sender: sender, Trailer: true, Salt: salt})
+						Sender: sender, Trailer: true, Salt: salt, Budgets: "bounds"})
 				}
 			}
 		}
@@ -367,6 +374,9 @@ func RunScenarios(c *core.Ctx, scs []*AdScenario) *AdTotals {
 		t.Obs.ValuesChecked += obs.ValuesChecked
 		t.Obs.ValuesOutside += obs.ValuesOutside
 		t.Obs.CanarySearches += obs.CanarySearches
+		t.Obs.BudgetRuns += obs.BudgetRuns
+		t.Obs.BudgetRefused += obs.BudgetRefused
+		t.Obs.BudgetAccepted += obs.BudgetAccepted
 		if d == nil {
 			t.Conform++
 		}
@@ -399,6 +409,11 @@ func (t *AdTotals) Publish(c *core.Ctx, prefix string) {
 	c.Set(prefix+"attribute_values_compared_with_full_parser", t.Obs.ValuesChecked)
 	c.Set(prefix+"rendered_texts_the_full_parser_rejects", t.Obs.ValuesOutside)
 	c.Set(prefix+"canary_searches", t.Obs.CanarySearches)
+	if t.Obs.BudgetRuns > 0 {
+		c.Set(prefix+"size_limited_receiver_budget_runs", t.Obs.BudgetRuns)
+		c.Set(prefix+"size_limited_receiver_refused_cleanly", t.Obs.BudgetRefused)
+		c.Set(prefix+"size_limited_receiver_accepted_and_equal_to_unlimited", t.Obs.BudgetAccepted)
+	}
 	c.Set(prefix+"observation_skip_desync_on_marker_plus_secret", t.Obs.SkipMarkerDesyn)
 }
 
